@@ -159,6 +159,68 @@ type fctx struct {
 	protected    []protRegion
 	protCells    []protCell
 	localAddr    map[int]bool // addresses of boxed local variables (by term id)
+	exitExempt   map[int]*Term // object address (term id) -> condition under which its invariant may be violated at this return
+	madeSlices   map[int]bool // base addresses of slices allocated with make() in this frame (by term id)
+}
+
+// nonNilElem: slices of this element type hold no nil once they are visible outside the frame that built them.
+func (e *Engine) nonNilElem(t types.Type) bool {
+	if t == nil {
+		return false
+	}
+	s := e.typeStr(t)
+	for _, x := range e.P.CF.NonNilElems {
+		if x == s {
+			return true
+		}
+	}
+	return false
+}
+
+func (fx *fctx) isMade(ptr *Term) bool {
+	if fx.madeSlices == nil {
+		return false
+	}
+	if fx.madeSlices[ptr.id] {
+		return true
+	}
+	// a sub-slice or a merge of a made slice
+	found := false
+	var walk func(t *Term, depth int)
+	walk = func(t *Term, depth int) {
+		if found || depth > 6 {
+			return
+		}
+		if fx.madeSlices[t.id] {
+			found = true
+			return
+		}
+		if t.Op == "ite" || t.Op == "+" {
+			for _, a := range t.Args {
+				walk(a, depth+1)
+			}
+		}
+	}
+	walk(ptr, 0)
+	return found
+}
+
+// publishSlice: a slice built in this frame with make() becomes visible to others: all its elements must be non-nil.
+func (fx *fctx) publishSlice(st *State, v *Value, n ast.Node, how string) {
+	if v == nil || v.Sl == nil || fx.spec || st.dead {
+		return
+	}
+	sl, ok := v.T.Underlying().(*types.Slice)
+	if !ok || !fx.e.nonNilElem(sl.Elem()) || !fx.isMade(v.Sl.Ptr) {
+		return
+	}
+	e := fx.e
+	ts := e.ts
+	k := ts.BoundVar("pe", SInt)
+	h := e.heapGet(st, e.elemKey(sl.Elem()), ArrSort(SInt))
+	g := ts.Forall([]*Term{k}, ts.Implies(ts.And(ts.Le(ts.Int(0), k), ts.Lt(k, v.Sl.Len)), ts.Ne(ts.Select(h, ts.Add(v.Sl.Ptr, k)), ts.Int(0))))
+	fx.assert(st, "elems-nonnil", how, g, n, nil, "a slice built in this frame holds no nil element when it becomes visible ("+how+")")
+	st.assume(g)
 }
 
 // protCell: a field of one object that callees do not modify; see ghostProtectFields.
@@ -232,12 +294,19 @@ func (fx *fctx) assert(st *State, kind, detail string, goal *Term, n ast.Node, p
 		return nil
 	}
 	name := fx.oblName(kind, detail)
-	if goal.IsTrue() {
-		// trivially true: still count the name so ordinals are stable, but no solver work
-		return nil
-	}
 	if props == nil {
 		props = fx.props
+	}
+	if goal.IsTrue() {
+		// decided by the term simplifier: recorded (so that the set of obligation names does not depend on how
+		// much the simplifier can see), no solver work
+		pos := ""
+		if n != nil {
+			pos = fx.e.posStr(n.Pos())
+		}
+		o := &Obligation{Name: name, Func: fx.fi.Key, Kind: kind, Props: props, Goal: goal, Pos: pos, Desc: desc, Status: "proved", Solver: "simplifier"}
+		fx.e.Obls = append(fx.e.Obls, o)
+		return o
 	}
 	pos := ""
 	if n != nil {
